@@ -177,7 +177,7 @@ theorem equalise_spec (rs : List CSampler) (i : Nat) (hi : i < rs.length) :
 /-- the common cutoff is not invented: it is 0 (no replicas) or one of the replicas' cutoffs -/
 theorem equalise_max_attained (rs : List CSampler) :
     maxCutoff (rs.map (·.cutoff)) = 0 ∨ maxCutoff (rs.map (·.cutoff)) ∈ rs.map (·.cutoff) :=
-  foldl_max_mem _ 0
+  foldl_natMax_mem _ 0
 
 /-- after equalisation, giving replica `i` the container of replica `j` (a replica swap) yields a
 sampler in `Inv` -/
